@@ -40,14 +40,19 @@ MIN_COUNTERS = {"quick": {"identity_checks": 3000, "handle_pokes": 5000, "item_v
 SHARD_TIMEOUT = {"quick": 900, "thorough": 5400}
 
 
+DIRECTED = ["H", "W", "X", "Y", "DD", "HH", "KK"]      # regression probes (findings/witnesses.py)
+
+
 def gen_cases(tier, seed):
+    for j, name in enumerate(DIRECTED):
+        yield {"id": "d%d" % j, "directed": j}
     n = 420 if tier == "quick" else 12000
     for i in range(n):
         yield {"id": "i%d" % i, "seed": env.derive_seed(seed, ID, i), "nedits": 2 + i % 7, "base": i % 4 == 1}
 
 
 def expand(case):
-    if "ops" in case:
+    if "ops" in case or "directed" in case:
         return case
     rnd = random.Random(case["seed"])
     g = None
@@ -100,6 +105,11 @@ def param_spaces(rm):
 
 def run_case(case):
     case = expand(case)
+    if "directed" in case:
+        from . import c12
+        r = c12._directed(DIRECTED[case["directed"]])
+        r["case"] = case
+        return r
     reset_session()
     w = World("M")
     vio = []
@@ -353,5 +363,7 @@ def _n(v):
 
 
 def shrink(case, violations, deadline):
+    if "directed" in case:
+        return None
     from ..shrink import shrink_ops
     return shrink_ops(expand(case), run_case, violations, deadline)
